@@ -111,7 +111,7 @@ pub fn scenarios(thorough: bool) -> Vec<Scenario> {
                     v.push(Scenario {
                         n_htlcs: n,
                         stored_pending: false,
-                        script: Script { crash_at_step: None, fault_at_write: None, pay_outcome: o.clone(), finish_before_resolve: *before, part_completes: *completes, fuse, deliver_first },
+                        script: Script { crash_at_step: None, fault_at_write: None, pay_outcome: o.clone(), finish_before_resolve: *before, part_completes: *completes, fuse, deliver_first, freeze: None },
                     });
                 }
             }
